@@ -128,17 +128,22 @@ def gen(rng, tier):
             fam = "general"
         else:
             cfg["max_time"] = 2 * B + 10
+    ut = rng.choice([2, 3]) if rng.random() < 0.08 else 1
+    if ut != 1:
+        cfg["unit_time"] = ut  # the clock advances by ut per step: limits are times, the bound counts steps
+        if fam == "feasible":
+            cfg["max_time"] = cfg["max_time"] * ut + rng.randint(0, ut - 1)
     spec = {"profile": p, "model": m, "cfg": cfg, "ranks": G.gen_ranks(rng, m), "family": fam}
     if fam == "infeasible":
         spec["unservable"] = m["tasks"][idx]["id"]
         spec["how"] = how
-        cfg["max_time"] = rng.choice([20, 40, 80])
+        cfg["max_time"] = rng.choice([20, 40, 80, 41])
     if fam == "feasible" and rng.random() < 0.3:
         # the completion clause must also hold for a run that follows an interrupted / earlier run on the same object
         C.maybe_history(rng, spec, 1.0, reload_prob=0.2)
         C.maybe_org_edit(rng, spec, 0.5)  # (only with a state reset) the first call ran on a model that lacked a target / had a worker elsewhere
         # time may continue from the first call: a generous limit costs no detection (a deadlock never terminates)
-        cfg["max_time"] = 2 * cfg["max_time"] + 20
+        cfg["max_time"] = 2 * cfg["max_time"] + 20 * ut
     return spec
 
 
@@ -149,6 +154,7 @@ def extra_candidates(spec):
 def check_always(res, tr, prefix="C05"):
     rec, out, p = tr.rec, tr.out, tr.project
     mt = tr.cfg.get("max_time", 40)
+    ut = tr.cfg.get("unit_time", 1) or 1
     if getattr(tr, "history", None) is not None and tr.history.get("k") is None and not tr.history["log"]:
         pass  # time continues after a complete first run: the limit clauses below still refer to this call's max_time
     if not out.ok and not out.injected:
@@ -159,8 +165,9 @@ def check_always(res, tr, prefix="C05"):
         if s.t >= mt:
             res.add("max_time", prefix + ".step_at_or_beyond_max_time", "step %d was simulated although max_time=%d" % (s.t, mt), s.t)
             break
-    if p.time > mt:
-        res.add("max_time", prefix + ".time_beyond_max_time", "project.time=%d > max_time=%d" % (p.time, mt), p.time)
+    if p.time >= mt + ut and C.full_steps(rec):
+        res.add("max_time", prefix + ".time_beyond_max_time", "project.time=%d although max_time=%d and unit_time=%d: the last step began at or beyond the limit"
+                % (p.time, mt, ut), p.time)
     allfin = all(int(t.state) == FINISHED for t in tr.ix.tasks)
     status = int(p.status)
     if status == 1 and not allfin:
@@ -184,6 +191,8 @@ def run(spec):
     if fam == "feasible":
         B_ = bound(m, spec["cfg"]) if feasible_ok(m) else None
         need = None if B_ is None else ((2 * B_ + 10) if spec.get("history") is None else 2 * (2 * B_ + 10) + 20)
+        if need is not None:
+            need *= (spec["cfg"].get("unit_time", 1) or 1)
         if need is None or spec["cfg"].get("max_time", 0) < need:
             fam = "general"  # not (or no longer, after shrinking) a member of the family: no completion claim
     elif fam == "infeasible":
